@@ -1,2 +1,54 @@
-(* C01 — placeholder until the theorems are in place (see DESIGN.md). *)
-From Rend Require Import base.Bytes.
+(* C01 — single-cache illusion. Statements only; proofs in orca/OrcaProofs.v.
+   Reading guide: [ref_run]/[ref_hist] = the same requests on ONE map (one-tier orchestrator
+   over one backend, never locked, never evicted); c01_ref_is_mapspec ties that to
+   MapSpec.spec_step. [reply_equiv] = same frames on the wire; for a get the value/miss frames
+   may come in any order, followed by the same terminator. *)
+From Rend Require Import base.Bytes gen.Consts_gen spec.MapSpec orca.Types handlers.Std orca.Orcas
+  proto.Resp orca.OrcaSpec orca.OrcaProofs.
+Open Scope N_scope.
+
+(* the reference run is the reference map: same store, same outcome class and values *)
+Theorem c01_ref_is_mapspec : forall s now r c,
+  cmd_of r = Some c ->
+  let '(s', cs, e) := ref_run s now r in
+  let '(s0, o) := spec_step s now c in
+  store_eq s' s0 /\ outcome_of r cs e = o.
+Proof. exact ref_is_mapspec. Qed.
+Print Assumptions c01_ref_is_mapspec.
+
+(* one request, any of the six orchestrator configurations, either protocol *)
+Theorem c01_request : forall p k lck now l1 l2 r,
+  inv k now l1 l2 -> in_scope k r = true -> combo_ok p lck r = true ->
+  let '(l1', l2', cs, c) := serve1 std_exec std_exec (orca_cfg k lck) r l1 l2 now in
+  let '(s', _, cs0, c0) := serve1 std_exec std_exec l1only r (auth k l1 l2) empty_store now in
+  reply_equiv p r cs cs0 /\ c = c0 /\ store_eq (auth k l1' l2') s' /\ inv k now l1' l2'.
+Proof. exact request_refines. Qed.
+Print Assumptions c01_request.
+
+(* every history, main and batch port interleaved, with arbitrary L1 evictions *)
+Theorem c01_refines_spec : forall p two lck h l1 l2,
+  hist_ok p two lck h ->
+  (forall now, inv (kind_of two PMain) now l1 l2) ->
+  let '(out, l1', l2') := run_hist two lck h l1 l2 in
+  let '(out0, s') := ref_hist h (if two then l2 else l1) in
+  Forall2 (fun x y => reply_equiv p (h_req (fst x)) (fst (snd x)) (fst y) /\ snd (snd x) = snd y)
+          (combine h out) out0 /\
+  store_eq (if two then l2' else l1') s'.
+Proof. exact history_refines. Qed.
+Print Assumptions c01_refines_spec.
+
+(* the excluded combination really fails: locked + text + two keys gives two END lines *)
+Theorem c01_locked_text_multiget_refuted :
+  exists r, combo_ok Text true r = false /\
+    let '(_, _, cs, _) := serve1 std_exec std_exec (orca_cfg KL1L2 true) r empty_store empty_store 0 in
+    let '(_, _, cs0, _) := serve1 std_exec std_exec l1only r empty_store empty_store 0 in
+    frames Text cs <> frames Text cs0.
+Proof. exact locked_text_multiget_refuted. Qed.
+
+(* non-vacuity: a concrete non-trivial history meets the hypotheses *)
+Example c01_nonvacuous :
+  let h := [mkH PMain 100 [] (RSet MSet [1] [2;3] 5 0 7 false);
+            mkH PBatch 101 [[1]] (RGet [mkGI [1] 1 true; mkGI [9] 2 false] 0 false);
+            mkH PMain 102 [] (RSet MAdd [1] [4] 0 10 8 false)] in
+  hist_ok Bin true true h /\ (forall now, inv (kind_of true PMain) now empty_store empty_store).
+Proof. exact c01_example. Qed.
